@@ -7,6 +7,7 @@ import JanetModel.Strtod.Extract
 import JanetModel.Strtod.Ldexp
 import JanetModel.Strtod.Approx
 import JanetModel.Strtod.EndToEnd
+import JanetModel.Strtod.RoundTrip
 
 namespace JanetModel.Props.C13
 open JanetModel.Strtod JanetModel.Gen.Strtod
@@ -363,19 +364,12 @@ theorem seventeen_digits_suffice (N D T : Nat) (hD : 0 < D) (hT : T < 2 ^ 53)
   have hTD : T * D < 9007199254740992 * D := Nat.mul_lt_mul_of_pos_right hT hD
   constructor <;> nlinarith
 
-/-- `print17_roundtrip_partial`: the READING half of the round trip, for both branches of the reader: whenever the exact
-    value `N/D` of the text (in the units of `extract_faithful_*`) is a 17-digit-accurate approximation of a double that
-    sits at grid point `T < 2^53` of the reader's grid, the significand handed to `ldexp` is exactly `T` (and the final
-    `ldexp` is exact or faithful by the `ldexp_*` theorems).
-    NOT proved (gap): (i) that `fmtG 17` / libc `%.17g` yields such an approximation (correct rounding of the printing side:
-    absolute error ≤ 10^(k−16)/2 with 10^k ≤ x); (ii) that the double lies on the reader's final grid with T < 2^53 — for a
-    power of two approached from below this uses |d − x| < 2^(E−2), which the same bound gives because x = 2^52·2^E there;
-    ((iii) the scanner plumbing from the printed characters to (mant, 10, ex) is now closed by `scan_number_faithful`.)
-    Note faithful ≠ nearest: the round trip needs the reader's NEAREST-ness (`NearestUpN`, proved for the normal range by
-    `extract_faithful_*`); in the subnormal range the reader is only faithful after the second rounding in `ldexp`, so the
-    round trip of subnormals rests on 17 digits being exact enough for the 2^−1074 grid (tested).  All are exercised on every run
-    (`p17`: every binade boundary ±1, subnormals, DBL_MAX, −0, random patterns; 0 failures) and the reader's nearest-ness
-    is additionally checked against exact arithmetic on every generated literal in the normal range. -/
+/-- `print17_roundtrip_partial` (session 2; kept): the arithmetic core of the reading half ON ONE GRID — a value that is a
+    17-digit-accurate approximation of the grid point `T < 2^53` of the reader's grid is read as `T`.
+    Its three named gaps are now CLOSED by `print17_roundtrip` below (session 4): (i) the printing side is the explicit
+    hypothesis `LibcPrinted17`; (ii) the placement of the double on the reader's final grid incl. the binade lower edge,
+    subnormals (second rounding in `ldexp`) and overflow is `finish_roundtrip`; (iii) the scanner plumbing is
+    `scan_roundtrip`. -/
 theorem print17_roundtrip_partial (t N D T : Nat) (hD : 0 < D) (hT : T < 2 ^ 53)
     (hread : NearestUpN t N D)
     (hclose_hi : 2 * 10 ^ 16 * N ≤ (2 * 10 ^ 16 + 1) * (T * D))
@@ -447,6 +441,93 @@ example : denote [49, 95, 48, 46, 53, 101, 43, 50] 0 = ⟨false, 105, 10, 1⟩ :
 example : scanNumberBase [48, 120, 49, 46, 56, 112, 51] 0 = some 0x4028000000000000 := by decide +kernel
 example : ulps 0x4028000000000000 * 2 = 24 * 2 ^ 1074 := by decide +kernel
 example : ClampSafe 1000000 := clamp_safe _
+
+/-! ### the 17-digit round trip: READING side closed, printing side = one explicit libc hypothesis -/
+
+/-- EXPLICIT LIBC HYPOTHESIS — the only thing assumed about `snprintf("%.17g", x)` (janet_buffer_dtostr, `%j`): the text
+    denotes (via the grammar-level `denote`) a radix-10 value that is a decimal `d·10^(jp−jn)` with 17 significant digits
+    (`d ≥ 10^16`, `d` = the digits read as an integer) lying within HALF A UNIT `10^(jp−jn)` of its 17th digit of `|x|`.
+    Everything is in units of 2^−1074: `ulps k` = |x|, the text's value is `M·10^E⁺·2^1074 / 10^E⁻`.
+    (Correct rounding of `%.17g` gives this; so does any libc that is merely accurate to half a unit in the 17th digit.) -/
+def LibcPrinted17 (l : Lit) (k : Nat) : Prop :=
+  l.b = 10 ∧ ∃ d jp jn : Nat, 10 ^ 16 ≤ d ∧
+    l.M * 10 ^ l.E.toNat * 2 ^ 1074 * 10 ^ jn = d * (10 ^ jp * 2 ^ 1074) * 10 ^ (-l.E).toNat ∧
+    2 * (l.M * 10 ^ l.E.toNat * 2 ^ 1074) * 10 ^ jn ≤
+      2 * (ulps k * 10 ^ (-l.E).toNat) * 10 ^ jn + 10 ^ jp * 2 ^ 1074 * 10 ^ (-l.E).toNat ∧
+    2 * (ulps k * 10 ^ (-l.E).toNat) * 10 ^ jn ≤
+      2 * (l.M * 10 ^ l.E.toNat * 2 ^ 1074) * 10 ^ jn + 10 ^ jp * 2 ^ 1074 * 10 ^ (-l.E).toNat
+
+/-- ★★ `print17_roundtrip`: for EVERY finite non-zero double (sign-less pattern `0 < k < +inf`; all binades, both binade
+    edges, every subnormal, DBL_MAX) and EVERY text the scanner accepts whose denoted value satisfies `LibcPrinted17 · k`,
+    `janet_scan_number_base` returns exactly `k` with the text's sign: the identical double.
+    Proof chain: `close17_of_half_unit` (half a unit in the 17th digit ⇒ relative error ≤ 1/(2·10^16)) → `scan_roundtrip`
+    (plumbing against `denote`; a clamped exponent cannot occur) → `convert_roundtrip` (the huge / tiny short-circuits cannot
+    fire: the tiny one has 85 bits of slack, `tiny_sound_neg_strong`; both scaling chains; one-digit integers) →
+    `finish_roundtrip` (nearest-ness of `bignat_extract` on the reader's own grid, which may be FINER than the double's
+    when the text lies just below a power of two — then the reader rounds up to 2^53 and renormalises; the magnitude
+    conjunct excludes a coarser grid; for subnormal `k` the second rounding inside `ldexp` sees a value strictly within
+    half an ulp of `k`, so double rounding is harmless; overflow impossible).
+    What remains outside (hypotheses, stated explicitly): (1) `LibcPrinted17` — libc; (2) that the printed text is
+    ACCEPTED by the scanner (`h`): `%.17g` output has the shape `[-]d[.ddd][e±dd]`, tested on every `p17` case;
+    (3) `Log2Within1Ulp` for the radix (discharged by `log2_table_within_1ulp` when the table certificate builds). -/
+theorem print17_roundtrip (str : List Nat) (base0 : Nat) (hb : base0 ≤ 36)
+    (hL : ∀ b, 2 ≤ b → b ≤ 36 → Log2Within1Ulp b)
+    (bits : Nat) (h : scanNumberBase str base0 = some bits) (k : Nat) (hk0 : 0 < k) (hk : k < infBits)
+    (hlibc : LibcPrinted17 (denote str base0) k) :
+    bits = withSign (denote str base0).neg k := by
+  obtain ⟨hb10, d, jp, jn, hd, hval, h1, h2⟩ := hlibc
+  apply scan_roundtrip str base0 hb hL (Or.inr (by decide)) bits h k hk0 hk
+  rw [hb10]
+  exact close17_of_half_unit _ _ _ d (10 ^ jp * 2 ^ 1074) (10 ^ jn) hd (Nat.pow_pos (by decide)) hval h1 h2
+
+/-- ★ `convert` reads back: any mantissa the scanner can build, radix 2..36, |ex| < 2^31, value `Close17` to the finite
+    non-zero double `k` ⇒ `convert` returns exactly `k` (signed) -/
+theorem convert_reads_back (neg : Bool) (mant : BigNat) (base : Nat) (ex : Int) (hi : MantInv mant)
+    (hb2 : 2 ≤ base) (hb : base ≤ 36) (hex : ex.natAbs < 2 ^ 31) (hL : Log2Within1Ulp base)
+    (k : Nat) (hk0 : 0 < k) (hk : k < infBits)
+    (hc : Close17 (mant.val * base ^ ex.toNat * 2 ^ 1074) (base ^ (-ex).toNat) (ulps k)) :
+    convert neg mant base ex = withSign neg k :=
+  convert_roundtrip neg mant base ex hi hb2 hb hex hL k hk0 hk hc
+
+/-- ★ `bignat_extract`'s (t, e2) + `ldexp` read back (binade edges, subnormals, no overflow) -/
+theorem extract_ldexp_reads_back (t : Nat) (e2 : Int) (N D k : Nat) (hD : 0 < D) (hlo : 2 ^ 52 ≤ t) (hhi : t < 2 ^ 53)
+    (hN : NearestUpN t N D) (hmag : (2 ^ 54 - 1) * D ≤ 4 * N) (hk0 : 0 < k) (hk : k < infBits)
+    (hc : Close17 (N * 2 ^ (e2 + 1074).toNat) (D * 2 ^ (-1074 - e2).toNat) (ulps k)) :
+    ldexpBits t e2 = k :=
+  finish_roundtrip t e2 N D k hD hlo hhi hN hmag hk0 hk hc
+
+/-- ★ the tiny short-circuit fires only below 2^−1159 (85 bits of slack under the smallest subnormal) -/
+theorem tiny_shortcircuit_slack (mant : BigNat) (base a : Nat) (hi : MantInv mant)
+    (hnz : ¬ (mant.digits.length = 0 ∧ mant.first = 0)) (hb2 : 2 ≤ base) (hb : base ≤ 36) (ha0 : 0 < a) (ha : a < 2 ^ 31)
+    (hL : Log2Within1Ulp base) (happ : exp2Approx mant base (-(a : Int)) < tinyThresh) :
+    mant.val * 2 ^ 1159 < base ^ a :=
+  tiny_sound_neg_strong mant base a hi hnz hb2 hb ha0 ha hL happ
+
+/-- ★ texts denoting zero ("0", "-0", "0.000e5", …) read as ±0 exactly -/
+theorem read_zero_exact (str : List Nat) (base0 : Nat) (hb : base0 ≤ 36)
+    (hL : ∀ b, 2 ≤ b → b ≤ 36 → Log2Within1Ulp b) (bits : Nat) (h : scanNumberBase str base0 = some bits)
+    (hz : (denote str base0).M = 0) : bits = withSign (denote str base0).neg 0 := by
+  obtain ⟨mag, hbits, hadj, _⟩ := scan_number_adjacent str base0 hb hL (Or.inr (by decide)) bits h
+  rw [hz] at hadj
+  simp only [Nat.zero_mul] at hadj
+  rw [hbits, adjacent_zero_value mag _ hadj]
+
+/-- non-vacuity of `print17_roundtrip`: `%.17g` of 0.1 is "0.10000000000000001" (d = 10000000000000001, unit 10^−17); it
+    satisfies the libc hypothesis for k = 0x3FB999999999999A and the scanner returns exactly that pattern.  Likewise the
+    smallest subnormal "4.9406564584124654e-324" (k = 1) and a value just below a power of two,
+    "0.99999999999999989" = 1 − 2^−53 (k = 0x3FEFFFFFFFFFFFFF, reader on the finer grid). -/
+example : LibcPrinted17 (denote [48, 46, 49, 48, 48, 48, 48, 48, 48, 48, 48, 48, 48, 48, 48, 48, 48, 48, 49] 0) 0x3FB999999999999A :=
+  ⟨by decide +kernel, 10000000000000001, 0, 17, by decide +kernel, by decide +kernel, by decide +kernel, by decide +kernel⟩
+example : scanNumberBase [48, 46, 49, 48, 48, 48, 48, 48, 48, 48, 48, 48, 48, 48, 48, 48, 48, 48, 49] 0 = some 0x3FB999999999999A := by
+  decide +kernel
+example : LibcPrinted17 (denote [52, 46, 57, 52, 48, 54, 53, 54, 52, 53, 56, 52, 49, 50, 52, 54, 53, 52, 101, 45, 51, 50, 52] 0) 1 :=
+  ⟨by decide +kernel, 49406564584124654, 0, 340, by decide +kernel, by decide +kernel, by decide +kernel, by decide +kernel⟩
+example : scanNumberBase [52, 46, 57, 52, 48, 54, 53, 54, 52, 53, 56, 52, 49, 50, 52, 54, 53, 52, 101, 45, 51, 50, 52] 0 = some 1 := by
+  decide +kernel
+example : LibcPrinted17 (denote [48, 46, 57, 57, 57, 57, 57, 57, 57, 57, 57, 57, 57, 57, 57, 57, 57, 56, 57] 0) 0x3FEFFFFFFFFFFFFF :=
+  ⟨by decide +kernel, 99999999999999989, 0, 17, by decide +kernel, by decide +kernel, by decide +kernel, by decide +kernel⟩
+example : scanNumberBase [48, 46, 57, 57, 57, 57, 57, 57, 57, 57, 57, 57, 57, 57, 57, 57, 57, 56, 57] 0 = some 0x3FEFFFFFFFFFFFFF := by
+  decide +kernel
 
 /-! ### non-vacuity -/
 
